@@ -338,22 +338,64 @@ _COMPILED = {}
          bounds={'universes': '3 body styles x 4 argument kinds x 4 return kinds over three namespaces (concrete programs; '
                               'this harness is an enumeration of universes, there is no symbolic input)'})
 def schema_compiles(sx, p):
-    """for every listed application the generated schema set compiles (every referenced namespace is imported)"""
+    """for every listed application the generated schema set compiles (every referenced namespace is imported) and both the
+    request and the response spyne writes for it are valid against it"""
     style, i, o = p
     from spyne.protocol.soap import Soap11
     kw = {} if style == 'wrapped' else {'_body_style': style}
 
+    out_value = {'primitive': u'txt', 'foreign': ZooRecord(name=u'z', legs=4), 'local': LocalRecord(n=3),
+                 'nested-foreign': FarmRecord(rec=ZooRecord(name=u'z', legs=2), tag=u't')}[o]
+    in_value = {'primitive': 7, 'foreign': ZooRecord(name=u'q', legs=1), 'local': LocalRecord(n=1),
+                'nested-foreign': FarmRecord(rec=ZooRecord(name=u'q', legs=0), tag=u'')}[i]
+
     class S(Service):
         @rpc(IN_TYPES[i], _returns=OUT_TYPES[o], **kw)
         def op(ctx, a):
-            return None
+            return out_value
     try:
         app = Application([S], TNS, in_protocol=Soap11(), out_protocol=Soap11(), name='App_%s_%s_%s' % p)
     except Exception as e:
         sx.outside('application rejected at construction: %s' % type(e).__name__)
     xs = XmlSchema(app.interface)
     xs.build_validation_schema()
-    return xs.validation_schema is not None
+    if xs.validation_schema is None:
+        return False
+    # ... and it is truthful about both messages: the request the Spyne client writes for a conformant value and the
+    # response the server writes are valid against it (the body entries are the published global elements)
+    from spyne.client import RemoteProcedureBase
+    from spyne.server import ServerBase
+    from spyne.context import MethodContext
+    from lxml import etree
+    env = 'http://schemas.xmlsoap.org/soap/envelope/'
+    if style == 'bare':
+        # (the Spyne client does not speak the bare style: the body entry is written with the protocol's own serializer)
+        desc = app.interface.service_method_map['{%s}op' % TNS][0]
+        tmp = etree.Element('tmp')
+        app.out_protocol.to_parent(None, desc.in_message, in_value, tmp, TNS, 'op')
+        req = (b'<e:Envelope xmlns:e="' + env.encode() + b'"><e:Body>' + etree.tostring(tmp[0]) + b'</e:Body></e:Envelope>')
+    else:
+        rp = RemoteProcedureBase('http://x/', app, 'op')
+        cctx = rp.contexts[0]
+        rp.get_out_object(cctx, (in_value,), {})
+        rp.get_out_string(cctx)
+        req = b''.join(cctx.out_string)
+    req_entry = etree.fromstring(req).find('{%s}Body' % env)[0]
+    server = ServerBase(app)
+    sctx = MethodContext(server, MethodContext.SERVER)
+    sctx.in_string = [req]
+    sctx, = server.generate_contexts(sctx)
+    server.get_in_object(sctx)
+    if sctx.in_error is not None:
+        return False
+    server.get_out_object(sctx)
+    server.get_out_string(sctx)
+    resp_entry = etree.fromstring(b''.join(sctx.out_string)).find('{%s}Body' % env)[0]
+    ok_req = xs.validation_schema.validate(etree.fromstring(etree.tostring(req_entry)))
+    ok_resp = xs.validation_schema.validate(etree.fromstring(etree.tostring(resp_entry)))
+    sx.observe('request valid', bool(ok_req))
+    sx.observe('response valid', bool(ok_resp))
+    return bool(ok_req) and bool(ok_resp)
 
 
 # ---------------------------------------------------------------- XML attributes: published use="required" vs what is written
